@@ -155,7 +155,10 @@ class C20(Property):
         pts, nrm, lab, gap = gen_sheets(rng, n1, n2, rng.pick(["flat", "curved", "tilted"]), rng.pick([0.0, 0.1, 0.3]))
         voxel = rng.pick([0.5, 0.78, 1.0, 1.5, 2.0])
         st = {"op": "measure", "sess": "s0", "points": pts, "normals": nrm, "labels": lab, "voxel": voxel,
-              "max_nm": round(gap * voxel * rng.uniform(1.15, 1.8), 3), "max_angle": rng.pick([1, 3, 5, 10, 20, 30]),
+              # the range limit sits anywhere from just below the sheet distance (many pairs right at the limit)
+              # to well above it
+              "max_nm": round(gap * voxel * rng.pick([0.97, 1.02, 1.06, 1.1, rng.uniform(1.15, 1.8), rng.uniform(1.15, 1.8)]), 3),
+              "max_angle": rng.pick([1, 3, 5, 10, 20, 30]),
               "direction": rng.pick(["1to2", "1to2", "2to1"]), "num_threads": rng.pick([None, 1]),
               "motion": {"ang": pose.random_rotation_angles(rng), "t": [round(rng.uniform(-50, 50), 2) for _ in range(3)]},
               "scale": rng.pick([0.5, 2.0, 1.3]), "workers": T, "preempt": p, "sched_seed": rng.randrange(1 << 30),
@@ -176,7 +179,10 @@ class C20(Property):
         direction = step["direction"]
         CLOCK.now += step.get("clock_jump", 0.0)
 
-        def measure(pts, nrm, m1, m2, vox, direc):
+        def measure(pts, nrm, m1, m2, vox, direc, copy=True):
+            if not copy:
+                return memthick.measure_thickness_cpu(pts, nrm, m1, m2, vox, max_thickness_nm=max_nm, max_angle_degrees=max_angle,
+                                                      direction=direc, num_threads=step["num_threads"], logger=None)
             return memthick.measure_thickness_cpu(pts.copy(), nrm.copy(), m1.copy(), m2.copy(), vox, max_thickness_nm=max_nm,
                                                   max_angle_degrees=max_angle, direction=direc, num_threads=step["num_threads"],
                                                   logger=None)
@@ -205,6 +211,14 @@ class C20(Property):
             t = np.array(step["motion"]["t"])
             o2 = world.call("s0", measure, points @ R.T + t, normals @ R.T, s1, s2, voxel, direction)
             self.same_result(world, o2, (thick, valid, pairs), "under a rigid motion of all points and normals", "rigid_motion")
+            # the caller's own arrays, measured, moved *in place*, measured again (same array objects)
+            pobj, nobj = points.copy(), normals.copy()
+            o2a = world.call("s0", measure, pobj, nobj, s1, s2, voxel, direction, False)
+            self.same_result(world, o2a, (thick, valid, pairs), "when called with the caller's arrays directly", "same_arrays")
+            pobj[...] = points @ R.T + t
+            nobj[...] = normals @ R.T
+            o2b = world.call("s0", measure, pobj, nobj, s1, s2, voxel, direction, False)
+            self.same_result(world, o2b, (thick, valid, pairs), "after the same arrays were moved rigidly in place", "rigid_motion_in_place")
             # voxel rescaling: coordinates x f, voxel size / f -> same physical geometry
             f = step["scale"]
             o3 = world.call("s0", measure, points * f, normals, s1, s2, voxel / f, direction)
@@ -342,7 +356,29 @@ class C20(Property):
                 c = int(mc[i])
                 got[i] = sorted((float(md[i, k]), int(mi[i, k])) for k in range(min(c, K)))
             results.append((mode, got, mc.copy()))
+        # the caller re-uses its output buffers for a second, narrower query (only the rows of source points are
+        # the kernel's to define; every one of them must be redefined by the call)
+        narrow = max_angle / 4.0
+        cand2, _m = admissible(points, normals, np.where(src_mask)[0], tgt, max_vox, narrow)
+        _STEPPER[0] = None
+        memthick.prange = _sim_prange
+        try:
+            args2 = (points, normals, src_mask, tgt_mask, tgt.astype(np.int64), float(max_vox), float(math.cos(math.radians(narrow))), md, mi, mc)
+            out = world.call("s0", memthick.find_matches_parallel.py_func, *args2)
+        finally:
+            memthick.prange = _REAL_PRANGE
+        if not out.ok:
+            raise Violation("kernel_raised", "reuse:%s" % out.describe(), "find_matches_parallel (re-used buffers) raised %r\n%s" % (out.exc, out.tb))
+        got2 = {i: sorted((float(md[i, k]), int(mi[i, k])) for k in range(min(int(mc[i]), K))) for i in range(n) if src_mask[i]}
+        results2 = [("reused_buffers", got2, cand2)]
+        world.probes["kernel_buffer_reuse"] += 1
         world.oracle()
+        for mode, got, want_all in results2:
+            for i, g in got.items():
+                want = want_all.get(i, [])
+                if sorted(j for _, j in g) != sorted(j for _, j in want):
+                    raise Violation("kernel_candidates", "%s:stale_rows" % mode, "find_matches_parallel called again with the same output buffers and max_angle %.3g: source %d reports candidates %r, the brute-force set is %r" % (
+                        narrow, i, [j for _, j in g], [j for _, j in want]))
         for mode, got, mc in results:
             for i in range(n):
                 want = cand.get(i, [])
